@@ -316,10 +316,12 @@ uint64_t CDNS::CdnsDecoder::read_int(uint8_t item_length)
 std::string CDNS::CdnsDecoder::read_string(CborType cbor_type, uint64_t length, bool indef)
 {
     std::string ret;
+    const uint64_t reserve_limit = BUFFER_SIZE;
 
     if (!indef) {
-        ret.reserve(length);
-        for (unsigned i = 0; i < length; i++) {
+        // Length comes from input data, don't trust it with memory allocation
+        ret.reserve(length < reserve_limit ? length : reserve_limit);
+        for (uint64_t i = 0; i < length; i++) {
             read_to_buffer();
             ret.push_back(m_p[0]);
             m_p++;
@@ -339,8 +341,8 @@ std::string CDNS::CdnsDecoder::read_string(CborType cbor_type, uint64_t length, 
             }
 
             uint64_t chunk_length = read_int(chunk_length_value);
-            ret.reserve(ret.size() + chunk_length);
-            for (unsigned i = 0; i < chunk_length; i++) {
+            ret.reserve(ret.size() + (chunk_length < reserve_limit ? chunk_length : reserve_limit));
+            for (uint64_t i = 0; i < chunk_length; i++) {
                 read_to_buffer();
                 ret.push_back(m_p[0]);
                 m_p++;
